@@ -3,6 +3,7 @@ module verif/harness
 go 1.23
 
 require (
+	github.com/anishathalye/porcupine v1.3.0
 	github.com/dgraph-io/badger/v4 v4.2.0
 	github.com/ostafen/clover/v2 v2.0.0-00010101000000-000000000000
 	pgregory.net/rapid v1.3.0
